@@ -165,7 +165,7 @@ pub fn run(ctx: &Ctx) -> usize {
 	ctx.assume("equality of w with the original x is not required (unknown events and junk are dropped, permuted events are re-ordered canonically)");
 	let mut violations = 0;
 	let cfg = cfg_for(ctx);
-	if run_dna(ctx, "dna", ctx.n(6000, 300_000), dna_max(ctx), |dna, counting| check(ctx, &gen_case(dna, &cfg), "dna", counting)).is_some() {
+	if run_dna(ctx, "dna", ctx.n(50_000, 2_500_000), dna_max(ctx), |dna, counting| check(ctx, &gen_case(dna, &cfg), "dna", counting)).is_some() {
 		violations += 1;
 	}
 	if !ctx.quick() && violations == 0 {
